@@ -165,6 +165,12 @@ Definition tk_peer_read (p : tk_phase) (old version : N) : effects :=
   | _ => roles_effects ERangeList Follower false Err400
   end.
 
+(* a follower with the etcd proxy: a transaction it forwards is answered by the leader at revision w, the answer is
+   delayed; meanwhile the leader commits up to r and the follower serves a read (syncs: installs r); the answer
+   arrives; a second read.  Forwarding never touches the read revision (roles_effects: f_set = None), so the only
+   SetCurrentRevision is the first read's, and both reads are served at r. *)
+Definition forward_model (w r : N) : list N * N * N := ([r], r, r).
+
 (* the outcome vocabulary of DESIGN.md, derived from the effects *)
 Inductive outcome :=
 | RejectUnavailable | Forward | ApplyLocal | WatchLocal | ServeLocal | ServeLocalAt (rev : N) | Error | Stub | Nothing.
